@@ -382,4 +382,86 @@ inline void future_async_mt(const vf::opts &o, vf::report &R, vf::team &T, uint6
     }
 }
 
+// ---------------------------------------------------------------------------------------------
+// single-thread promise lifecycle histories: promises are moved, move-assigned (over armed and over empty ones), invoked,
+// dropped and destroyed; after every step every future must be in exactly the state the statement prescribes.
+inline void promise_history(const vf::opts &o, vf::report &R, uint64_t histories) {
+    vf::rng master(vf::mix(o.seed, 0x101));
+    for (uint64_t hn = 0; hn < histories && R.nviol() < 5; hn++) {
+        vf::rng r(master.next());
+        vf::set_crash_ctx(R.prop.c_str(), "promise_history", o.seed, hn);
+        constexpr int NF = 4, NS = 5;
+        std::unique_ptr<cocls::future<int>> fut[NF];
+        outcome model[NF];                 // expected state of every future
+        std::optional<cocls::promise<int>> slot[NS];
+        int owner[NS];                     // which future the promise in the slot points to (-1 none / empty promise)
+        for (int i = 0; i < NS; i++) owner[i] = -1;
+        int nf = 0;
+        std::string trace, err;
+        int len = 3 + (int)r.below(18);
+        auto check = [&](const char *after) {
+            for (int f = 0; f < nf && err.empty(); f++) {
+                outcome got; got.state = PS_PENDING;
+                if (fut[f]->ready()) got = read_future(*fut[f], nullptr, 0);
+                if (!(got == model[f])) err = std::string("after ") + after + ": future #" + std::to_string(f) + " is " + got.str() + ", expected " + model[f].str();
+            }
+            for (int i = 0; i < NS && err.empty(); i++) if (slot[i]) {
+                bool valid = (bool)*slot[i];
+                if (valid != (owner[i] >= 0)) err = std::string("after ") + after + ": promise in slot " + std::to_string(i) + (valid ? " is armed" : " is empty") + " but the model says the opposite";
+            }
+        };
+        for (int step = 0; step < len && err.empty(); step++) {
+            uint32_t x = r.below(100);
+            int a = (int)r.below(NS), b = (int)r.below(NS);
+            if (x < 20 && nf < NF) { // new future, promise into slot a (move-assign over whatever is there)
+                trace += "new->s" + std::to_string(a) + " ";
+                fut[nf] = std::make_unique<cocls::future<int>>();
+                if (slot[a]) { if (owner[a] >= 0) model[owner[a]].state = PS_CANCELED; *slot[a] = fut[nf]->get_promise(); }
+                else slot[a].emplace(fut[nf]->get_promise());
+                owner[a] = nf; model[nf].state = PS_PENDING; nf++;
+            } else if (x < 40 && slot[a] && slot[b] && a != b) { // move-assign slot a = move(slot b): a's old future is dropped, b becomes empty
+                trace += "s" + std::to_string(a) + "=move(s" + std::to_string(b) + ") ";
+                if (owner[a] >= 0) model[owner[a]].state = PS_CANCELED;
+                *slot[a] = std::move(*slot[b]);
+                owner[a] = owner[b]; owner[b] = -1;
+            } else if (x < 50 && slot[b] && !slot[a]) { // move-construct
+                trace += "s" + std::to_string(a) + "(move(s" + std::to_string(b) + ")) ";
+                slot[a].emplace(std::move(*slot[b]));
+                owner[a] = owner[b]; owner[b] = -1;
+            } else if (x < 70 && slot[a]) { // invoke with a value / exception / drop
+                int how = (int)r.below(3);
+                trace += std::string("s") + std::to_string(a) + (how == 0 ? "(value) " : how == 1 ? "(exception) " : "(drop) ");
+                bool ok = how == 0 ? (bool)(*slot[a])(500 + step) : how == 1 ? (bool)(*slot[a])(vf::make_exc(600 + step)) : (bool)(*slot[a])(cocls::drop);
+                if (ok != (owner[a] >= 0)) err = std::string("call reported ") + (ok ? "success" : "failure") + " on " + (owner[a] >= 0 ? "an armed" : "an empty") + " promise";
+                if (owner[a] >= 0) {
+                    outcome &m = model[owner[a]];
+                    if (how == 0) { m.state = PS_VALUE; m.val = 500 + (uint64_t)step; } else if (how == 1) { m.state = PS_EXC; m.code = 600 + step; } else m.state = PS_CANCELED;
+                    owner[a] = -1;
+                }
+            } else if (x < 85 && slot[a]) { // destroy the promise object
+                trace += "~s" + std::to_string(a) + " ";
+                if (owner[a] >= 0) model[owner[a]].state = PS_CANCELED;
+                slot[a].reset(); owner[a] = -1;
+            } else if (x < 92 && slot[a]) { // self move-assignment must change nothing
+                trace += "s" + std::to_string(a) + "=move(self) ";
+                cocls::promise<int> &ref = *slot[a];
+                *slot[a] = std::move(ref);
+            } else continue;
+            check(trace.c_str());
+        }
+        for (int i = 0; i < NS; i++) if (slot[i]) { if (owner[i] >= 0) model[owner[i]].state = PS_CANCELED; slot[i].reset(); owner[i] = -1; }
+        trace += "~all ";
+        if (err.empty()) check("destruction of all promises");
+        R.cases++;
+        if (!err.empty()) {
+            R.violation("monitor:resolution|promise_history", err, vf::jobj().kv("history", (unsigned long long)hn).kv("seed", (unsigned long long)o.seed).kv("ops", trace).kv("disagreement", err).str());
+            for (int f = 0; f < nf; f++) (void)fut[f].release();
+            for (int i = 0; i < NS; i++) if (slot[i]) { new (&*slot[i]) cocls::promise<int>(); }
+            continue;
+        }
+        if (len >= 4) { R.nontrivial_cases++; R.sig(trace); }
+        if (R.samples.size() < 2 && len > 8) R.sample(vf::jobj().kv("ops", trace).kv("result", "every future in the prescribed state after every step").str());
+    }
+}
+
 } // namespace scn
